@@ -345,6 +345,13 @@ def _short(d):
 def run_check(prop, module, tier, seed):
     t0 = time.time()
     obs = [o for o in module.obligations(tier) if tier in o.tiers]
+    only = [n for n in (os.environ.get('VERIF_ONLY') or '').split(',') if n]
+    if only:
+        # development aid (never set by a registered command): run a subset of the obligations; only honoured with a scratch VERIF_OUT
+        if not os.environ.get('VERIF_OUT'):
+            print('HARNESS-ERROR property=%s VERIF_ONLY needs VERIF_OUT (the evidence of a partial run must not replace the real one)' % prop)
+            return EXIT_HARNESS
+        obs = [o for o in obs if o.name in only]
     for o in obs:
         if o.kind == 'ch' and o.replay is None:
             o.replay = default_ch_replay(o)
